@@ -34,7 +34,21 @@ CHECKS = {
  "C09": ("exploration", "seeded simulation; StepResult.repeat compared with the reference outcome of every step", "3.A, 4 C09",
          "Expected repeat request per step from R's classification (Ignored => NoChange, Special firing => exact Repeating payload, otherwise Disabled).", A_NOTE),
  "C19": ("exploration", "seeded simulation; strict fold of all step and release-all outputs", "3.A, 4 C19",
-         "Every emitted event is folded strictly: a press of a down key or a release of an up key is a violation. No reference model involved.", A_NOTE),
+         "Every emitted event is folded strictly: a press of a down key or a release of an up key is a violation (world A over step and release-all outputs; world B over every batch the real loop writes except timer chords, which C11 owns). No reference model involved in world A.", A_NOTE),
+ "C10": ("exploration", "discrete-event simulation of the real event loop under a simulated driver; trace refinement against RefLoop and the drain-to-Busy rule", "3.B, 4 C10",
+         "The real per-device loop runs on a simulated driver with edge-triggered readiness; arrival batching, device order, latency, signal interruptions with back-off, spurious time-outs/readiness and device removal are drawn from a decision tape. The recorded trace must refine RefLoop: every non-empty mapper step written once and in order, every notified device read until Busy/End before the next poll, no call after End.", B_NOTE),
+ "C11": ("exploration", "discrete-event simulation with a simulated clock; exact timeout/deadline prediction and chord payload check", "3.B, 4 C11",
+         "The clock is simulated, so every poll timeout is predicted exactly (None / deadline-now / 1 ms when overdue, no tolerance); chords are sent iff a time-out occurs while armed and not in tablet mode, with the payload 'repeat keys not already held, listed order, reverse release', and leave the held set unchanged.", B_NOTE),
+ "C12": ("exploration", "discrete-event simulation with tablet-switch arrivals interleaved with key arrivals and timer ticks", "3.B, 4 C12",
+         "Tablet on/off events (repeated, during chords, with a timer armed, in the same wake-up as key events in both orders): release batch equals the held keys, no write until Off is read, fresh behaviour afterwards.", B_NOTE),
+ "C14": ("exploration", "stored-file fault simulation (torn/corrupted layout file) through the real loader, then the real mapper under key histories; exhaustive truncation sweep of shipped texts", "3.D, 4 C14",
+         "A real file is written, faulted (truncation at every offset of every shipped text exhaustively; random truncation, bit flips, block duplication/drop/transposition, garbage, empty, bad paths, non-UTF-8 otherwise) and loaded by the real load_layout_from_file; accepted layouts are installed in a real Mapper and driven by seeded histories. Any unwind is a violation.",
+         "Trusted: catch_unwind observes every panic. Real code: load_layout_from_file (real file I/O), serde_json, parser, converter, Mapper. The byte-string quantifier is sampled from a grammar plus faults; weakest fit of the claimed properties (first clause is mostly decided by the generated workload)."),
+ "C18": ("exploration", "byte-level simulation on non-blocking pipes: real writer vs libc::input_event, real reader on interleaved streams across EAGAIN boundaries; hybrid loop runs", "3.C, 4 C18",
+         "The simulator plays the uinput consumer and the evdev node on pipes: bytes of every batch are compared record by record with libc::input_event; the tool's reader must decode them back; on streams interleaving foreign records it must return exactly the press/release records with known codes. The sweep over all known key codes x {press, release} is exhaustive; batches/interleavings are sampled; hybrid world-B runs put the byte layer under whole loop histories.",
+         "Trusted: libc::input_event for this target; KeyCode discriminants = kernel key numbers. Real code: DevInputWriter::send, StructSerializer, DevInputReader::next, TabletModeSwitchReader::next. Host ABI only."),
+ "C20": ("fault_enumeration", "per-call I/O fault sweep: every driver call of every sampled schedule fails in turn", "3.B, 4 C20",
+         "For each sampled (layout, schedule, tape) the fault-free run is executed once to learn its n driver calls, then re-executed n times with exactly the k-th call (register, poll, read or send) returning an error, for every k. The loop must return that error and write nothing afterwards. Enumeration over fault positions is complete per schedule; schedules are sampled.", B_NOTE),
 }
 
 NOT_APPLICABLE = {
@@ -43,14 +57,7 @@ NOT_APPLICABLE = {
  "C16": "classification is a pure function of one /proc text and a pattern list; the extractors are stateless across calls",
  "C17": "the ExecStart escaper is a pure &str -> String function",
 }
-PENDING = {
- "C10": "world B (loop simulation) check under construction in this session; not yet claimed",
- "C11": "world B (loop simulation) check under construction in this session; not yet claimed",
- "C12": "world B (loop simulation) check under construction in this session; not yet claimed",
- "C14": "world D (stored-file faults) check under construction in this session; not yet claimed",
- "C18": "world C (wire simulation) check under construction in this session; not yet claimed",
- "C20": "world B fault sweep under construction in this session; not yet claimed",
-}
+PENDING = {}
 
 def main():
     checks = []
